@@ -478,7 +478,7 @@ class FuncView:
                     stack.append(b)
         return seen
 
-    def sym(self, expr, at, depth=6):
+    def sym(self, expr, at, depth=6, unpack=False):
         """expression with local names replaced by their unique reaching definition's value
         (simple assignments and augmented assignments only); returns an ast expression"""
         import copy
@@ -499,7 +499,15 @@ class FuncView:
                         and st.targets[0].id == n.id:
                     if d.id == at.id:
                         return n
-                    return view.sym(st.value, d, depth - 1)
+                    return view.sym(st.value, d, depth - 1, unpack)
+                if unpack and isinstance(st, ast.Assign) and len(st.targets) == 1 and isinstance(st.targets[0], (ast.Tuple, ast.List)) \
+                        and d.id != at.id:
+                    # `a, b = E`: a is E[0] (opt-in: the expression E then appears once per unpacked name)
+                    for i, t in enumerate(st.targets[0].elts):
+                        if isinstance(t, ast.Name) and t.id == n.id:
+                            if isinstance(st.value, (ast.Tuple, ast.List)) and len(st.value.elts) == len(st.targets[0].elts):
+                                return view.sym(st.value.elts[i], d, depth - 1, unpack)
+                            return ast.Subscript(value=view.sym(st.value, d, depth - 1, unpack), slice=ast.Constant(value=i), ctx=ast.Load())
                 if isinstance(st, ast.AugAssign) and isinstance(st.target, ast.Name) and st.target.id == n.id:
                     if d.id == at.id:
                         return n
@@ -799,12 +807,23 @@ def simplify(e):
                 return fold(ast.Compare(left=x.args[0], ops=[ops[f_.attr]()], comparators=[x.args[1]]))
             if f_ is not x.func:
                 x.func = f_
+            x.args = [fold(a) for a in x.args]
+            for k in x.keywords:
+                k.value = fold(k.value)
             return x
         if isinstance(x, ast.IfExp):
             t = fold(x.test)
             if const(t):
                 return fold(x.body if t.value else x.orelse)
             x.test, x.body, x.orelse = t, fold(x.body), fold(x.orelse)
+            return x
+        if isinstance(x, ast.BinOp):
+            x.left, x.right = fold(x.left), fold(x.right)
+            return x
+        if isinstance(x, ast.Call):
+            x.args = [fold(a) for a in x.args]
+            for k in x.keywords:
+                k.value = fold(k.value)
             return x
         return x
     return fold(e)
@@ -1370,7 +1389,13 @@ def possibly_unbound(view):
     out = []
     for name in sorted(locs):
         defs = view._def_nodes(name)
-        uses = [n for n in cfg.nodes if any(isinstance(x, ast.Name) and x.id == name and isinstance(x.ctx, ast.Load)
+        # a read inside a comprehension that binds the name itself is a read of the comprehension's variable, not of the local
+        own_scope = set()
+        for x in ast.walk(fn):
+            if isinstance(x, (ast.ListComp, ast.SetComp, ast.DictComp, ast.GeneratorExp)) and any(
+                    isinstance(t, ast.Name) and t.id == name for g in x.generators for t in ast.walk(g.target)):
+                own_scope |= {id(y) for y in ast.walk(x)} - {id(y) for y in ast.walk(x.generators[0].iter)}
+        uses = [n for n in cfg.nodes if any(isinstance(x, ast.Name) and x.id == name and isinstance(x.ctx, ast.Load) and id(x) not in own_scope
                                             for x in cfg.walk_node(n))]
         if not uses:
             continue
